@@ -200,6 +200,15 @@ Theorem C10_dist_symmetric : forall t bs p q, dist2 t bs p q = dist2 t bs q p.
 Proof. exact dist2_sym. Qed.
 Print Assumptions C10_dist_symmetric.
 
+(* what "toroidal" means: along each axis the distance used on a torus is the shortest |a - b + k*size| over all
+   whole numbers of turns k (for points at most one period apart, e.g. both inside the closed bounds) *)
+Theorem C10_torus_distance_is_shortest : forall size a b,
+  0 < size -> Z.abs (a - b) <= size ->
+  (forall k, axis_dist true size a b <= Z.abs (a - b + k * size)) /\
+  (exists k, (k = -1 \/ k = 0 \/ k = 1) /\ axis_dist true size a b = Z.abs (a - b + k * size)).
+Proof. exact axis_dist_quotient. Qed.
+Print Assumptions C10_torus_distance_is_shortest.
+
 (* heading (legacy) / difference vector (experimental): squared length = squared distance; on a torus
    for points inside the closed bounds (the shorter of the two representatives per axis) *)
 Theorem C10_heading_norm : forall t bs p q,
@@ -212,7 +221,7 @@ Print Assumptions C10_heading_norm.
 (* torus wrapping: lands in the half-open (hence closed) bounds, is the identity inside them *)
 Theorem C10_torus_in_bounds : forall bs p,
   bounds_ok bs = true -> oob_half bs (wrap bs p) = false /\ in_closed bs (wrap bs p) = true.
-Proof. intros bs p H. exact (conj (wrap_in_half bs p H) (wrap_in_closed bs p H)). Qed.
+Proof. exact wrap_in_bounds. Qed.
 Print Assumptions C10_torus_in_bounds.
 
 Theorem C10_wrap_identity_inside : forall bs p,
